@@ -350,3 +350,112 @@ Section HistR.
     unfold hist_init. change (n0 Rops) with 0. rewrite lsum_repeat0. lra.
   Qed.
 End HistR.
+
+(* ------------------------------------------------------------------ re-mapping (read_multicol) *)
+Section RemapR.
+  Local Open Scope R_scope.
+
+  Lemma rem_rem_mod (i n : Z) : (0 < n)%Z -> Z.rem (Z.rem i n + n) n = (i mod n)%Z.
+  Proof.
+    intros Hn.
+    pose proof (Z.rem_bound_abs i n ltac:(lia)) as Hb.
+    assert (Hr : (- n < Z.rem i n < n)%Z) by lia.
+    rewrite Z.rem_mod_nonneg by lia.
+    rewrite Zplus_mod, Z_mod_same_full, Z.add_0_r, Zmod_mod.
+    destruct (Z_le_gt_dec 0 i) as [Hi|Hi].
+    - rewrite Z.rem_mod_nonneg by lia. apply Zmod_mod.
+    - pose proof (Z.rem_opp_l i n ltac:(lia)) as Ho.
+      assert (He : Z.rem i n = (- Z.rem (- i) n)%Z) by lia.
+      rewrite He, Z.rem_mod_nonneg by lia.
+      (* (- ((-i) mod n)) mod n = i mod n *)
+      pose proof (Z.div_mod (- i) n ltac:(lia)) as Hd.
+      replace (- ((- i) mod n))%Z with (i + n * ((- i) / n))%Z by lia.
+      rewrite Z.mul_comm, Z_mod_plus_full. reflexivity.
+  Qed.
+
+  (* one periodic dimension: every value is wrapped to the in-range bin that contains it modulo the period
+     (before the fix of colvar_grid::wrap_detect_edge this needed  - n <= bin, see known_findings.txt) *)
+  Lemma remap_target_1d_periodic (l w x : R) (n : Z) : 0 < w -> (0 < n)%Z ->
+    let i := value_to_bin Rops l w x in
+    let a := (i mod n)%Z in
+    remap_target Rops (mkGeom [l] [w] [n] [true]) [x] = Some a /\ (0 <= a < n)%Z /\
+    exists k : Z, l + IZR a * w <= x - IZR k * (IZR n * w) < l + (IZR a + 1) * w.
+  Proof.
+    intros Hw Hn i a.
+    assert (Ha : (0 <= a < n)%Z) by (apply Z.mod_pos_bound; lia).
+    assert (Hrem : Z.rem (Z.rem i n + n) n = a) by (apply rem_rem_mod; auto).
+    split; [|split; auto].
+    - unfold remap_target. cbn [g_per g_nx g_lower g_width bins wrap_index].
+      fold i. rewrite Hrem.
+      assert (Hok : index_ok [n] [a] = true) by (apply index_ok_iff; repeat constructor; lia).
+      rewrite Hok. f_equal. unfold address, nxc; cbn [strides fst address_c]. lia.
+    - exists (i / n)%Z.
+      assert (Hdiv : (i = n * (i / n) + a)%Z) by (apply Z.div_mod; lia).
+      assert (Hb : value_to_bin Rops l w x = i) by reflexivity.
+      apply bin_unique in Hb; auto.
+      assert (Hia : IZR i = IZR n * IZR (i / n) + IZR a).
+      { rewrite <- mult_IZR, <- plus_IZR. f_equal. exact Hdiv. }
+      set (k := IZR (i / n)) in *. rewrite Hia in Hb. nra.
+  Qed.
+
+  (* "last write wins": when distinct records of the file have distinct targets on the receiving
+     grid nothing is lost: every record that has a target is found there after the read *)
+  Variable g : grid_geom (T := R).
+  Hypothesis Hpos : all_pos (g_nx g).
+
+  Lemma remap_target_lt x a : remap_target Rops g x = Some a ->
+    (Z.to_nat a < Z.to_nat (ntot 1 (g_nx g)))%nat.
+  Proof.
+    unfold remap_target.
+    destruct (index_ok (g_nx g) (wrap_index (g_per g) (g_nx g) (bins Rops (g_lower g) (g_width g) x))) eqn:E;
+      [|discriminate].
+    intros H; injection H as <-. apply index_ok_iff in E.
+    pose proof (address_bounds 1 (g_nx g) _ ltac:(lia) Hpos E). lia.
+  Qed.
+
+  Lemma remap_record_length data rc : length (remap_record Rops g data rc) = length data.
+  Proof. unfold remap_record. destruct (remap_target Rops g (fst rc)); auto. apply upd_length. Qed.
+
+  Lemma remap_fold_length recs data : length (fold_left (remap_record Rops g) recs data) = length data.
+  Proof.
+    revert data; induction recs as [|rc recs IH]; intros data; cbn [fold_left]; auto.
+    rewrite IH. apply remap_record_length.
+  Qed.
+
+  Lemma remap_fold_untouched recs data (j : nat) :
+    (forall rc a, In rc recs -> remap_target Rops g (fst rc) = Some a -> Z.to_nat a <> j) ->
+    nth j (fold_left (remap_record Rops g) recs data) 0 = nth j data 0.
+  Proof.
+    revert data; induction recs as [|rc recs IH]; intros data H; cbn [fold_left]; auto.
+    rewrite IH by (intros rc' a Hin; apply H; right; exact Hin).
+    unfold remap_record. destruct (remap_target Rops g (fst rc)) as [a|] eqn:E; auto.
+    apply upd_nth_other. apply (H rc a); [left; reflexivity | exact E].
+  Qed.
+
+  Definition targets (recs : list (list R * R)) : list (option Z) := map (fun rc => remap_target Rops g (fst rc)) recs.
+
+  Lemma remap_lossless recs data rc a :
+    length data = Z.to_nat (ntot 1 (g_nx g)) ->
+    NoDup (targets recs) -> In rc recs -> remap_target Rops g (fst rc) = Some a ->
+    nth (Z.to_nat a) (fold_left (remap_record Rops g) recs data) 0 = snd rc.
+  Proof.
+    revert data; induction recs as [|r0 recs IH]; intros data Hlen Hnd Hin Ht; [destruct Hin|].
+    cbn [fold_left]. cbn [targets map] in Hnd. inversion Hnd as [|? ? Hnotin Hnd']; subst.
+    destruct Hin as [->|Hin].
+    - rewrite remap_fold_untouched.
+      + unfold remap_record. rewrite Ht. apply upd_nth_same. rewrite Hlen. apply (remap_target_lt (fst rc)); auto.
+      + intros rc' a' Hin' Ht' Heq. apply Hnotin. unfold targets. apply in_map_iff. exists rc'. split; auto.
+        rewrite Ht', Ht. f_equal.
+        pose proof (remap_target_lt _ _ Ht) as H1. pose proof (remap_target_lt _ _ Ht') as H2.
+        assert (0 <= a)%Z.
+        { unfold remap_target in Ht. destruct (index_ok _ _) eqn:E in Ht; [|discriminate].
+          injection Ht as <-. apply index_ok_iff in E.
+          pose proof (address_bounds 1 (g_nx g) _ ltac:(lia) Hpos E). lia. }
+        assert (0 <= a')%Z.
+        { unfold remap_target in Ht'. destruct (index_ok _ _) eqn:E in Ht'; [|discriminate].
+          injection Ht' as <-. apply index_ok_iff in E.
+          pose proof (address_bounds 1 (g_nx g) _ ltac:(lia) Hpos E). lia. }
+        lia.
+    - apply IH; auto. rewrite remap_record_length. exact Hlen.
+  Qed.
+End RemapR.
